@@ -153,9 +153,13 @@ func minimise(t *testing.T, pd *PropDef, sc *Scenario, tape []int32, v Violation
 			if p.StopTimeout != nil && try(func(c *Scenario) bool { c.Project.Proc(pn).StopTimeout = nil; return true }) {
 				progress = true
 			}
-			if ts := best.Scripts[p.Token]; ts != nil && len(ts.Launches) > 1 && try(func(c *Scenario) bool {
-				c.Scripts[pn].Launches = c.Scripts[pn].Launches[:1]
-				return c.Scripts[pn] != nil
+			tok := p.Token
+			if ts := best.Scripts[tok]; ts != nil && len(ts.Launches) > 1 && try(func(c *Scenario) bool {
+				if c.Scripts[tok] == nil {
+					return false
+				}
+				c.Scripts[tok].Launches = c.Scripts[tok].Launches[:1]
+				return true
 			}) {
 				progress = true
 			}
